@@ -125,6 +125,22 @@ fn check_message(c: u8, n: u8, v: u16, mon: &mut Cc14Mon, rng: &mut Rng, hist: &
         mon.apply(&e2, rep, &|| h.iter().map(|e| e.render()).collect())
     };
     let want = c14m(&m);
+    if (v % 5 == 0 || v & 127 == 0) && o1.is_none() && o2 == Some(want) {
+        // "whatever it has been fed before" includes the very same message
+        hist.push(e1);
+        hist.push(e2);
+        let h: &Vec<Ev> = hist;
+        let p1 = mon.apply(&e1, rep, &|| h[..h.len() - 1].iter().map(|e| e.render()).collect());
+        let p2 = mon.apply(&e2, rep, &|| h.iter().map(|e| e.render()).collect());
+        rep.count("messages_fed_twice_in_a_row", 1);
+        if p1.is_some() || p2 != Some(want) {
+            rep.violation(
+                "C07:scanner-does-not-invert-encoder:repeated-message",
+                format!("feeding the encoding of ({},{},{}) a second time returned {:?} then {:?}; expected None then {:?}", c, n, v, p1, p2, want),
+                history_json("cc14", None, &|| h.iter().map(|e| e.render()).collect(), json!(format!("{:?}", want)), json!(format!("{:?} / {:?}", p1, p2))),
+            );
+        }
+    }
     if o1.is_some() || o2 != Some(want) {
         let h: &Vec<Ev> = hist;
         rep.violation(
@@ -248,8 +264,8 @@ pub fn c08_alphabet(full: bool, channel: u8) -> Vec<Ev> {
             a.push(Ev::cc(channel, n, v));
         }
     }
-    // non-contributing representatives
-    for n in [64u8, 95, 96, 101, 127] {
+    // every non-contributing controller number (64..=127) once
+    for n in 64u8..=127 {
         a.push(Ev::cc(channel, n, 5));
     }
     a.push(Ev::Msg(0x90 | channel, 60, 100));
@@ -288,7 +304,7 @@ pub fn run_c08(cfg: &Cfg, rep: &mut Report) {
     }
     rep.set_exhaustive(false);
     // seeded random histories, 16 channels, full alphabet
-    let total = cfg.size(2_000, 4_000_000, 200_000_000);
+    let total = cfg.size(2_000, 12_000_000, 300_000_000);
     par(cfg, rep, |shard, nsh, rep| {
         let mut rng = Rng::derive(cfg.seed, 0xC08_00 + shard as u64);
         let per = total / nsh as u64;
